@@ -97,15 +97,15 @@ Est1(mode, J, v) == IF mode = "fwd" THEN FwdEst(J, v, JVP(J, v)) ELSE RevEst(J, 
 
 \* ------------------------------------------------------------------ mean over a list of probes
 AddEst(e, f) == [tr |-> IMatAdd(e.tr, f.tr), dg |-> IT3Add(e.dg, f.dg)]
-RECURSIVE SumEstAcc(_, _, _, _, _)
-\* (the accumulator is forced before recursing: see BUILDING.md)
-SumEstAcc(mode, J, vs, k, acc) ==
-  IF k > Len(vs) THEN acc
-  ELSE With(AddEst(acc, Est1(mode, J, vs[k])), LAMBDA a2 :
-         IF Len(a2.tr) = 0 THEN a2 ELSE SumEstAcc(mode, J, vs, k + 1, a2))
+RECURSIVE SumEst(_, _, _, _, _)
+\* sum of the per-probe estimates of vs[lo..hi] by halving: recursion depth log2(#probes) (a linear fold is
+\* thousands of levels deep for 4096 probes; TLC's Java stack then dominates the run time)
+SumEst(mode, J, vs, lo, hi) ==
+  IF lo = hi THEN Est1(mode, J, vs[lo])
+  ELSE AddEst(SumEst(mode, J, vs, lo, (lo + hi) \div 2), SumEst(mode, J, vs, ((lo + hi) \div 2) + 1, hi))
 \* rational mean: the sum of the per-probe estimates divided by the number of probes
 MeanEst(mode, J, vs) ==
-  With(SumEstAcc(mode, J, vs, 2, Est1(mode, J, vs[1])), LAMBDA s :
+  With(SumEst(mode, J, vs, 1, Len(vs)), LAMBDA s :
         [tr |-> RMat(s.tr, Len(vs)), dg |-> RT3(s.dg, Len(vs))])
 
 \* all 2^(n d) sign tensors of shape (n, d): bit (r-1) d + (a-1) of k set <=> entry -1
